@@ -4,10 +4,37 @@ import os, re, subprocess, sys, time, hashlib, json, tempfile, shutil
 from concurrent.futures import ThreadPoolExecutor
 
 ROOT = os.path.dirname(os.path.dirname(os.path.abspath(__file__)))
-HARNESS_DIR = os.path.join(ROOT, "harness")
+# The registered commands always check /repo and write under /verif.  For experiments (tools/seed_par.sh:
+# several seeded changes evaluated side by side, each in its own scratch worktree) VERIF_REPO names another
+# checkout of the crate and VERIF_OUT the directory that receives that instance's harness build, evidence
+# and replays; caches are shared, being keyed by a hash of the sources.
+REPO = os.environ.get("VERIF_REPO", "/repo")
+OUT = os.environ.get("VERIF_OUT") or ROOT
+HARNESS_DIR = os.path.join(OUT, "harness")
 HARNESS = os.path.join(HARNESS_DIR, "target", "debug", "crharness")
 DRIVER = os.path.join(ROOT, "ocaml", "driver")
 WORK = os.path.join(ROOT, "work")
+
+
+def prepare_instance():
+    """OUT != ROOT: a copy of harness/ whose dependency points at REPO"""
+    if OUT == ROOT:
+        return
+    src = os.path.join(ROOT, "harness")
+    os.makedirs(os.path.join(HARNESS_DIR, "src"), exist_ok=True)
+    os.makedirs(os.path.join(HARNESS_DIR, ".cargo"), exist_ok=True)
+    for f in os.listdir(os.path.join(src, "src")):
+        a, b = os.path.join(src, "src", f), os.path.join(HARNESS_DIR, "src", f)
+        if not os.path.exists(b) or open(a, "rb").read() != open(b, "rb").read():
+            shutil.copy(a, b)
+    shutil.copy(os.path.join(src, ".cargo", "config.toml"), os.path.join(HARNESS_DIR, ".cargo", "config.toml"))
+    toml = open(os.path.join(src, "Cargo.toml")).read().replace('path = "/repo"', 'path = "%s"' % REPO)
+    tp = os.path.join(HARNESS_DIR, "Cargo.toml")
+    if not os.path.exists(tp) or open(tp).read() != toml:
+        open(tp, "w").write(toml)
+    for f in ("rust-toolchain",):
+        if os.path.exists(os.path.join(REPO, f)):
+            shutil.copy(os.path.join(REPO, f), os.path.join(HARNESS_DIR, f))
 NPROC = min(16, os.cpu_count() or 4)
 
 os.makedirs(WORK, exist_ok=True)
@@ -94,7 +121,7 @@ def add_hints(line, impl_rec):
     ops = [o.strip() for o in body.split(";") if o.strip()]
     hints = {}
     for ln in impl_rec["lines"]:
-        m = re.match(r"^(\d+) (?:\S+ )?D([\d,]+)", ln)
+        m = re.match(r"^(\d+) (?:\S+ )?D([\d,]+)", ln) or re.match(r"^(\d+) fault .* order=([\d,]+)", ln)
         if m:
             hints[int(m.group(1))] = m.group(2)
     if not hints:
